@@ -91,7 +91,7 @@ def monitor(ctx, spec, r):
 
 
 def run(ctx):
-    c20.run(ctx, only={"memory_dict<->dataframe", "values2positions"})
+    c20.run(ctx, only={"memory_dict<->dataframe", "values2positions", "value2position"})
     u = ctx.unit("D:search(memory_warm_start)", "D",
                  "search() with memory_warm_start frames: arbitrary subsets of the space with scores that differ from the "
                  "objective's, duplicate rows, extra and shuffled columns, frames taken from the previous call's search_data "
@@ -104,7 +104,7 @@ def run(ctx):
     results = []
     for i in range(100 if ctx.quick else 700):
         name = names[i % len(names)]
-        spec = dunit.general_spec(rng, name, max_calls=3, metrics=0, sizes=(2, 3, 5), max_points=30, n_max=14, memory=True,
+        spec = dunit.general_spec(rng, name, max_calls=3, metrics=0, sizes=(2, 3, 5), max_points=30, n_max=14, memory=True, dups=0.25,
                                   verbosity=False, ndims=rng.choice([1, 2, 2, 3]), steps_api=False)
         if name in ("GeneticAlgorithmOptimizer", "DifferentialEvolutionOptimizer"):
             spec["cfg"] = {k: v for k, v in (spec["cfg"] or {}).items() if k != "population"}
